@@ -1031,6 +1031,10 @@ func selftest(args []string) int {
 	if len(args) > 1 {
 		n, _ = strconv.Atoi(args[1])
 	}
+	reps := 2
+	if len(args) > 2 {
+		reps, _ = strconv.Atoi(args[2])
+	}
 	eng := props.Engines[prop]
 	if eng == nil {
 		return 2
@@ -1039,7 +1043,7 @@ func selftest(args []string) int {
 	var ref string
 	procs := 0
 	for _, gmp := range []string{"1", "4", "16"} {
-		for rep := 0; rep < 2; rep++ {
+		for rep := 0; rep < reps; rep++ {
 			cmd := exec.Command(self, "digest", prop, "quick", "7", fmt.Sprint(n))
 			cmd.Env = append(os.Environ(), "GOMAXPROCS="+gmp)
 			if eng.Race {
